@@ -1,1 +1,463 @@
 //! Verification hooks for the `mgr` domain (`--cfg litep2p_verif` only).
+//!
+//! A scripted [`Transport`] that can be registered with the real [`TransportManager`] plus a
+//! small harness that lets an out-of-tree driver inject transport outcomes one at a time, poll
+//! the manager loop, and read (never write) the manager's bookkeeping.
+
+use crate::{
+    codec::ProtocolCodec,
+    error::{AddressError, DialError, Error, NegotiationError},
+    protocol::{SubstreamKeepAlive, TransportEvent as ProtocolEvent, TransportService},
+    transport::{
+        common::listener::{GetSocketAddr, TcpAddress},
+        manager::{
+            limits::ConnectionLimitsConfig, SupportedTransport, TransportManager,
+            TransportManagerBuilder, TransportManagerEvent,
+        },
+        Endpoint, Transport, TransportEvent,
+    },
+    types::{protocol::ProtocolName, ConnectionId},
+    PeerId,
+};
+
+use futures::{future::BoxFuture, Future, FutureExt, Stream, StreamExt};
+use multiaddr::Multiaddr;
+use parking_lot::Mutex;
+use tokio::sync::oneshot;
+
+use std::{
+    collections::{HashMap, HashSet, VecDeque},
+    pin::Pin,
+    sync::Arc,
+    task::{Context, Poll, Waker},
+    time::Duration,
+};
+
+/// A call made by the manager on the scripted transport.
+#[derive(Debug, Clone, PartialEq, Eq)]
+pub enum Call {
+    Dial { cid: usize, address: Multiaddr, ok: bool },
+    Open { cid: usize, addresses: Vec<Multiaddr> },
+    Negotiate { cid: usize, ok: bool },
+    Cancel { cid: usize },
+    Accept { cid: usize, ok: bool },
+    Reject { cid: usize, ok: bool },
+    AcceptPending { cid: usize, ok: bool },
+    RejectPending { cid: usize, ok: bool },
+}
+
+/// Kind of dial error to report.
+#[derive(Debug, Clone, Copy, PartialEq, Eq)]
+pub enum ErrKind {
+    /// `DialError::Timeout` (scored as connection failure).
+    Timeout,
+    /// `DialError::AddressError` (scored as address failure).
+    Address,
+    /// `DialError::NegotiationError(PeerIdMismatch)`.
+    PeerIdMismatch,
+}
+
+fn dial_error(kind: ErrKind, a: PeerId, b: PeerId) -> DialError {
+    match kind {
+        ErrKind::Timeout => DialError::Timeout,
+        ErrKind::Address => DialError::AddressError(AddressError::AddressNotAvailable),
+        ErrKind::PeerIdMismatch =>
+            DialError::NegotiationError(NegotiationError::PeerIdMismatch(a, b)),
+    }
+}
+
+#[derive(Default)]
+struct Shared {
+    calls: Vec<Call>,
+    queue: VecDeque<TransportEvent>,
+    waker: Option<Waker>,
+    /// Peer expected by a `dial()`ed address (as the TCP transport would extract it).
+    dial_expected: HashMap<usize, Option<PeerId>>,
+    /// Connections announced as established and not yet accepted/rejected (`pending_open`).
+    pending_open: HashSet<usize>,
+    /// Opened (not yet negotiated) connections.
+    opened: HashSet<usize>,
+    /// Pending inbound sockets.
+    pending_inbound: HashSet<usize>,
+    /// Completion handles of the futures returned from `accept()`.
+    accept: HashMap<usize, oneshot::Sender<bool>>,
+}
+
+/// Scripted transport. Behaves like the TCP transport at the trait boundary (same synchronous
+/// errors for unknown connection ids and unparsable addresses) but every outcome is injected.
+pub(crate) struct ScriptedTransport {
+    shared: Arc<Mutex<Shared>>,
+}
+
+fn no_conn(cid: ConnectionId) -> Error {
+    Error::ConnectionDoesntExist(cid)
+}
+
+impl Transport for ScriptedTransport {
+    fn dial(&mut self, connection_id: ConnectionId, address: Multiaddr) -> crate::Result<()> {
+        let cid = connection_id.verif_as_usize();
+        let parsed = TcpAddress::multiaddr_to_socket_address(&address);
+        let mut s = self.shared.lock();
+        s.calls.push(Call::Dial { cid, address, ok: parsed.is_ok() });
+        let (_, peer) = parsed?;
+        s.dial_expected.insert(cid, peer);
+        Ok(())
+    }
+
+    fn accept(
+        &mut self,
+        connection_id: ConnectionId,
+    ) -> crate::Result<BoxFuture<'static, crate::Result<()>>> {
+        let cid = connection_id.verif_as_usize();
+        let mut s = self.shared.lock();
+        let ok = s.pending_open.remove(&cid);
+        s.calls.push(Call::Accept { cid, ok });
+        if !ok {
+            return Err(no_conn(connection_id));
+        }
+        let (tx, rx) = oneshot::channel();
+        s.accept.insert(cid, tx);
+        Ok(Box::pin(async move {
+            match rx.await {
+                Ok(true) => Ok(()),
+                _ => Err(Error::EssentialTaskClosed),
+            }
+        }))
+    }
+
+    fn accept_pending(&mut self, connection_id: ConnectionId) -> crate::Result<()> {
+        let cid = connection_id.verif_as_usize();
+        let mut s = self.shared.lock();
+        let ok = s.pending_inbound.remove(&cid);
+        s.calls.push(Call::AcceptPending { cid, ok });
+        ok.then_some(()).ok_or(no_conn(connection_id))
+    }
+
+    fn reject_pending(&mut self, connection_id: ConnectionId) -> crate::Result<()> {
+        let cid = connection_id.verif_as_usize();
+        let mut s = self.shared.lock();
+        let ok = s.pending_inbound.remove(&cid);
+        s.calls.push(Call::RejectPending { cid, ok });
+        ok.then_some(()).ok_or(no_conn(connection_id))
+    }
+
+    fn reject(&mut self, connection_id: ConnectionId) -> crate::Result<()> {
+        let cid = connection_id.verif_as_usize();
+        let mut s = self.shared.lock();
+        let ok = s.pending_open.remove(&cid);
+        s.calls.push(Call::Reject { cid, ok });
+        ok.then_some(()).ok_or(no_conn(connection_id))
+    }
+
+    fn open(
+        &mut self,
+        connection_id: ConnectionId,
+        addresses: Vec<Multiaddr>,
+    ) -> crate::Result<()> {
+        let cid = connection_id.verif_as_usize();
+        self.shared.lock().calls.push(Call::Open { cid, addresses });
+        Ok(())
+    }
+
+    fn negotiate(&mut self, connection_id: ConnectionId) -> crate::Result<()> {
+        let cid = connection_id.verif_as_usize();
+        let mut s = self.shared.lock();
+        let ok = s.opened.remove(&cid);
+        s.calls.push(Call::Negotiate { cid, ok });
+        ok.then_some(()).ok_or(no_conn(connection_id))
+    }
+
+    fn cancel(&mut self, connection_id: ConnectionId) {
+        let cid = connection_id.verif_as_usize();
+        self.shared.lock().calls.push(Call::Cancel { cid });
+    }
+}
+
+impl Stream for ScriptedTransport {
+    type Item = TransportEvent;
+
+    fn poll_next(self: Pin<&mut Self>, cx: &mut Context<'_>) -> Poll<Option<Self::Item>> {
+        let mut s = self.shared.lock();
+        match s.queue.pop_front() {
+            Some(event) => Poll::Ready(Some(event)),
+            None => {
+                s.waker = Some(cx.waker().clone());
+                Poll::Pending
+            }
+        }
+    }
+}
+
+/// Event returned by the manager loop, projected to plain data.
+#[derive(Debug, Clone, PartialEq, Eq)]
+pub enum MgrEvent {
+    Established { peer: PeerId, cid: usize, listener: bool, address: Multiaddr },
+    Closed { peer: PeerId, cid: usize },
+    DialFailure { cid: usize, address: Multiaddr },
+    OpenFailure { cid: usize, addresses: Vec<Multiaddr> },
+    /// The manager loop returned `None`.
+    Terminated,
+}
+
+/// Event seen by a registered protocol (through its real `TransportService`).
+#[derive(Debug, Clone, PartialEq, Eq)]
+pub enum ProtoEvent {
+    Established { peer: PeerId, cid: usize },
+    Closed { peer: PeerId },
+    DialFailure { peer: PeerId, addresses: Vec<Multiaddr> },
+    Other(String),
+}
+
+/// Read-only view of a peer's state in the manager.
+#[derive(Debug, Clone, PartialEq, Eq, Default)]
+pub struct PeerView {
+    /// `connected` | `opening` | `dialing` | `disconnected` | `unknown`.
+    pub kind: &'static str,
+    /// Connection id of the primary connection (`connected`).
+    pub primary: Option<usize>,
+    /// Connection id of an established secondary connection.
+    pub secondary: Option<usize>,
+    /// Connection id of a dial in progress (`dialing`, `opening`, or a dial record kept by
+    /// `connected`/`disconnected`).
+    pub dialing: Option<usize>,
+}
+
+/// Harness around the real [`TransportManager`] with one scripted transport.
+pub struct ManagerHarness {
+    manager: TransportManager,
+    shared: Arc<Mutex<Shared>>,
+    services: Vec<TransportService>,
+    local: PeerId,
+}
+
+impl ManagerHarness {
+    /// Build a manager with the given limits, `protocols` registered dummy protocols and one
+    /// scripted transport registered as TCP.
+    pub fn new(
+        max_incoming: Option<usize>,
+        max_outgoing: Option<usize>,
+        protocols: usize,
+        listen: Vec<Multiaddr>,
+    ) -> Self {
+        let mut manager = TransportManagerBuilder::new()
+            .with_supported_transports([SupportedTransport::Tcp].into_iter().collect())
+            .with_connection_limits_config(
+                ConnectionLimitsConfig::default()
+                    .max_incoming_connections(max_incoming)
+                    .max_outgoing_connections(max_outgoing),
+            )
+            .build();
+        let services = (0..protocols)
+            .map(|i| {
+                manager.register_protocol(
+                    ProtocolName::from(format!("/verif/{i}")),
+                    Vec::new(),
+                    ProtocolCodec::UnsignedVarint(None),
+                    Duration::from_secs(3600),
+                    SubstreamKeepAlive::Yes,
+                )
+            })
+            .collect();
+        let shared = Arc::new(Mutex::new(Shared::default()));
+        manager.register_transport(
+            SupportedTransport::Tcp,
+            Box::new(ScriptedTransport { shared: shared.clone() }),
+        );
+        for address in listen {
+            manager.register_listen_address(address);
+        }
+        let local = manager.verif_local_peer_id();
+        Self { manager, shared, services, local }
+    }
+
+    /// Local peer id of the manager.
+    pub fn local_peer_id(&self) -> PeerId {
+        self.local
+    }
+
+    /// `TransportManager::dial` (the call behind `Litep2p::dial`).
+    pub fn dial(&mut self, peer: PeerId) -> Result<(), String> {
+        self.manager
+            .dial(peer)
+            .now_or_never()
+            .expect("dial does not suspend")
+            .map_err(|e| format!("{e:?}"))
+    }
+
+    /// `TransportManager::dial_address` (the call behind `Litep2p::dial_address`).
+    pub fn dial_address(&mut self, address: Multiaddr) -> Result<(), String> {
+        self.manager
+            .dial_address(address)
+            .now_or_never()
+            .expect("dial_address does not suspend")
+            .map_err(|e| format!("{e:?}"))
+    }
+
+    /// `TransportManager::add_known_address`.
+    pub fn add_known_address(&mut self, peer: PeerId, addresses: Vec<Multiaddr>) -> usize {
+        self.manager.add_known_address(peer, addresses.into_iter())
+    }
+
+    /// Protocol-initiated dial through the real `TransportService` of protocol `proto`.
+    pub fn service_dial(&mut self, proto: usize, peer: PeerId) -> Result<(), String> {
+        self.services[proto].dial(&peer).map_err(|e| format!("{e:?}"))
+    }
+
+    /// Protocol-initiated address dial through the real `TransportService` of protocol `proto`.
+    pub fn service_dial_address(&mut self, proto: usize, address: Multiaddr) -> Result<(), String> {
+        self.services[proto].dial_address(address).map_err(|e| format!("{e:?}"))
+    }
+
+    fn push(&mut self, event: TransportEvent) {
+        let mut s = self.shared.lock();
+        s.queue.push_back(event);
+        if let Some(w) = s.waker.take() {
+            w.wake();
+        }
+    }
+
+    /// Peer the scripted transport would authenticate for a `dial()`ed connection.
+    pub fn dial_expected_peer(&self, cid: usize) -> Option<Option<PeerId>> {
+        self.shared.lock().dial_expected.get(&cid).cloned()
+    }
+
+    /// Transport outcome: connection `cid` fully negotiated with `peer`.
+    pub fn inject_established(&mut self, peer: PeerId, cid: usize, listener: bool, address: Multiaddr) {
+        self.shared.lock().pending_open.insert(cid);
+        let endpoint = if listener {
+            Endpoint::listener(address, ConnectionId::from(cid))
+        } else {
+            Endpoint::dialer(address, ConnectionId::from(cid))
+        };
+        self.push(TransportEvent::ConnectionEstablished { peer, endpoint });
+    }
+
+    /// Transport outcome: single-address dial `cid` failed.
+    pub fn inject_dial_failure(&mut self, cid: usize, address: Multiaddr, kind: ErrKind) {
+        let e = dial_error(kind, self.local, self.local);
+        self.push(TransportEvent::DialFailure { connection_id: ConnectionId::from(cid), address, error: e });
+    }
+
+    /// Transport outcome: `open()` for `cid` reached `address` (others failed with `errors`).
+    pub fn inject_opened(&mut self, cid: usize, address: Multiaddr, errors: Vec<(Multiaddr, ErrKind)>) {
+        self.shared.lock().opened.insert(cid);
+        let local = self.local;
+        let errors = errors.into_iter().map(|(a, k)| (a, dial_error(k, local, local))).collect();
+        self.push(TransportEvent::ConnectionOpened { connection_id: ConnectionId::from(cid), address, errors });
+    }
+
+    /// Transport outcome: `open()` for `cid` failed on every address.
+    pub fn inject_open_failure(&mut self, cid: usize, errors: Vec<(Multiaddr, ErrKind)>) {
+        let local = self.local;
+        let errors = errors.into_iter().map(|(a, k)| (a, dial_error(k, local, local))).collect();
+        self.push(TransportEvent::OpenFailure { connection_id: ConnectionId::from(cid), errors });
+    }
+
+    /// Transport event: a pending inbound socket; returns its freshly allocated connection id.
+    pub fn inject_pending_inbound(&mut self) -> usize {
+        let cid = self.manager.verif_next_connection_id().verif_as_usize();
+        self.shared.lock().pending_inbound.insert(cid);
+        self.push(TransportEvent::PendingInboundConnection { connection_id: ConnectionId::from(cid) });
+        cid
+    }
+
+    /// Complete the future returned by `accept(cid)`. Returns false if there is none.
+    pub fn resolve_accept(&mut self, cid: usize, ok: bool) -> bool {
+        match self.shared.lock().accept.remove(&cid) {
+            Some(tx) => tx.send(ok).is_ok(),
+            None => false,
+        }
+    }
+
+    /// A connection task reports that connection `cid` of `peer` closed.
+    pub fn connection_closed(&mut self, peer: PeerId, cid: usize) {
+        let tx = self.manager.verif_event_tx();
+        tx.try_send(TransportManagerEvent::ConnectionClosed { peer, connection: ConnectionId::from(cid) })
+            .expect("manager event channel has room");
+    }
+
+    /// Poll the manager loop once. `None` means the loop is waiting for input.
+    pub fn step(&mut self) -> Option<MgrEvent> {
+        let waker = futures::task::noop_waker();
+        let mut cx = Context::from_waker(&waker);
+        let mut fut = Box::pin(self.manager.next());
+        match fut.as_mut().poll(&mut cx) {
+            Poll::Pending => None,
+            Poll::Ready(None) => Some(MgrEvent::Terminated),
+            Poll::Ready(Some(event)) => Some(match event {
+                TransportEvent::ConnectionEstablished { peer, endpoint } => MgrEvent::Established {
+                    peer,
+                    cid: endpoint.connection_id().verif_as_usize(),
+                    listener: endpoint.is_listener(),
+                    address: endpoint.address().clone(),
+                },
+                TransportEvent::ConnectionClosed { peer, connection_id } =>
+                    MgrEvent::Closed { peer, cid: connection_id.verif_as_usize() },
+                TransportEvent::DialFailure { connection_id, address, .. } =>
+                    MgrEvent::DialFailure { cid: connection_id.verif_as_usize(), address },
+                TransportEvent::OpenFailure { connection_id, errors } => MgrEvent::OpenFailure {
+                    cid: connection_id.verif_as_usize(),
+                    addresses: errors.into_iter().map(|(a, _)| a).collect(),
+                },
+                other => panic!("unexpected manager event {other:?}"),
+            }),
+        }
+    }
+
+    /// Transport calls made since the last invocation.
+    pub fn take_calls(&mut self) -> Vec<Call> {
+        std::mem::take(&mut self.shared.lock().calls)
+    }
+
+    /// Number of injected transport events the manager has not consumed yet.
+    pub fn queued(&self) -> usize {
+        self.shared.lock().queue.len()
+    }
+
+    /// Events observed by protocol `proto` since the last invocation.
+    pub fn protocol_events(&mut self, proto: usize) -> Vec<ProtoEvent> {
+        let waker = futures::task::noop_waker();
+        let mut cx = Context::from_waker(&waker);
+        let mut out = Vec::new();
+        while let Poll::Ready(Some(event)) = self.services[proto].poll_next_unpin(&mut cx) {
+            out.push(match event {
+                ProtocolEvent::ConnectionEstablished { peer, endpoint } =>
+                    ProtoEvent::Established { peer, cid: endpoint.connection_id().verif_as_usize() },
+                ProtocolEvent::ConnectionClosed { peer } => ProtoEvent::Closed { peer },
+                ProtocolEvent::DialFailure { peer, addresses } => ProtoEvent::DialFailure { peer, addresses },
+                other => ProtoEvent::Other(format!("{other:?}")),
+            });
+        }
+        out
+    }
+
+    /// Number of registered protocols.
+    pub fn protocols(&self) -> usize {
+        self.services.len()
+    }
+
+    /// State of `peer` in the manager.
+    pub fn peer_view(&self, peer: &PeerId) -> PeerView {
+        self.manager.verif_peer_view(peer)
+    }
+
+    /// `(address, score)` of every address stored for `peer`.
+    pub fn addresses(&self, peer: &PeerId) -> Vec<(Multiaddr, i32)> {
+        self.manager.verif_addresses(peer)
+    }
+
+    /// `pending_connections` as `(connection id, peer)`.
+    pub fn pending_connections(&self) -> Vec<(usize, PeerId)> {
+        self.manager.verif_pending_connections()
+    }
+
+    /// Connection ids counted against the (incoming, outgoing) limits.
+    pub fn limits(&self) -> (Vec<usize>, Vec<usize>) {
+        self.manager.verif_limits()
+    }
+
+    /// What the TCP transport extracts from an address.
+    pub fn tcp_parse(address: &Multiaddr) -> Result<Option<PeerId>, String> {
+        TcpAddress::multiaddr_to_socket_address(address).map(|(_, p)| p).map_err(|e| format!("{e:?}"))
+    }
+}
